@@ -151,6 +151,30 @@ theorem fine_no_deadlock (T : Table) (hT : TimerOk T) (fls : List FLabel) (f : F
   obtain ⟨hinv, _, _⟩ := reach_sim T hT fls f out h
   exact no_deadlock T f hinv h1 h2
 
+/-- **The generation check is what makes this true** (the mutex alone does not): with a callback that
+    locks but does not compare generations, the same statement-grained system reports Escape *after* the
+    sequence `ESC [ A` has been delivered, and sends on the closed channel when the input ends first —
+    while the real callback, on the same schedules, does neither. -/
+theorem fine_needs_generation_check :
+    ((FSys.runNoCheck handTable FSys.init
+        [.main, .readRet (.rune 0x1B), .main, .main, .main, .main, .main, .main, .expire,
+         .readRet (.rune 0x5B), .main, .main, .main, .main, .main,
+         .main, .readRet (.rune 0x41), .main, .main, .main, .main, .main, .cb 0, .cb 0, .cb 0]).map (·.2)
+      = some [.csi [] [] 0x41, .c0 0x1B]) ∧
+    ((FSys.run handTable FSys.init
+        [.main, .readRet (.rune 0x1B), .main, .main, .main, .main, .main, .main, .expire,
+         .readRet (.rune 0x5B), .main, .main, .main, .main, .main,
+         .main, .readRet (.rune 0x41), .main, .main, .main, .main, .main, .cb 0, .cb 0, .cb 0]).map (·.2)
+      = some [.csi [] [] 0x41]) ∧
+    ((FSys.runNoCheck handTable FSys.init
+        [.main, .readRet (.rune 0x1B), .main, .main, .main, .main, .main, .main, .expire,
+         .readRet .eof, .main, .main, .main, .main, .main, .main, .main, .main, .main, .main, .main,
+         .cb 0, .cb 0, .cb 0]).map (·.2) = some [.eof, .panic]) ∧
+    ((FSys.run handTable FSys.init
+        [.main, .readRet (.rune 0x1B), .main, .main, .main, .main, .main, .main, .expire,
+         .readRet .eof, .main, .main, .main, .main, .main, .main, .main, .main, .main, .main, .main,
+         .cb 0, .cb 0, .cb 0]).map (·.2) = some [.eof]) := by decide
+
 /-! ### non-vacuity: concrete interleavings -/
 
 /-- `ESC`, the loop blocks in the next read, the timer expires, its callback runs statement by
